@@ -154,13 +154,13 @@ def kernel_name(mode, order):
     return fam + ("csd" if mode == "csd" else "auto")
 
 
-def gen_world(rw, kind, K=None):
+def gen_world(rw, kind, K=None, heavy=False):
     """Seeded knobs for one world."""
     if kind == "sim-numba":
         return {"world": kind, "sched": rw.randrange(2 ** 31), "max_workers": rw.choice([2, 3, 4, 6]), "poison": rw.random() < 0.8,
                 "policy": rw.choice([None, None, "random", "roundrobin", "starve", "serial_perm", "pct"])}
     if kind == "sim-cuda":
-        return {"world": kind, "sched": rw.randrange(2 ** 31), "tpb": rw.choice([1, 2, 3, 4, 4, 7, 32, 256]), "poison": rw.random() < 0.8,
+        return {"world": kind, "sched": rw.randrange(2 ** 31), "tpb": rw.choice([1, 2, 3, 4, 4, 7, 32, 256] if heavy else [1, 2, 3, 4, 4, 5, 7, 7, 16]), "poison": rw.random() < 0.8,
                 "policy": rw.choice([None, None, "random", "roundrobin", "starve", "serial_perm", "pct"])}
     if kind == "numpy":
         opts = [None, 1, 2, 3, 5]
